@@ -110,6 +110,51 @@ def run(chk):
             else:
                 t[((xy[0] + 1) % 256, xy[1])] = {rng.randrange(18)}
         traces.append(dict(ev=evs, label="one dictionary changed in place between calls"))
+    # the pairs as they are PRODUCED FOR A FLOOD FILL: MachineController.flood_fill_aplx with an application map of
+    # two or three binaries against the simulated machine; the core-select packets the machine received between the
+    # start and the end of each fill are that binary's pairs (the fill is matched to its binary by the data it
+    # carried), judged exactly like a return value of compress_flood_fill_regions
+    from . import c09
+    wd = c09.Workdir(chk)
+    wired = 0
+    for rep in range(chk.pick(15, 300)):
+        w, h = rng.choice(((2, 2), (4, 4), (5, 3), (8, 8)))
+        free = [(x, y, p) for x in range(w) for y in range(h) for p in range(1, 18)]
+        rng.shuffle(free)
+        bins = []
+        for i in range(rng.randint(2, 3)):
+            data = bytes(bytearray([i + 1] + [rng.randrange(256) for _ in range(4 * rng.randint(1, 60) - 1)]))
+            tg = {}
+            for _ in range(rng.choice((1, 3, 17, 40, 90))):
+                if free:
+                    x, y, p = free.pop()
+                    tg.setdefault((x, y), set()).add(p)
+            if tg:
+                bins.append((data, tg))
+        if len(bins) < 2:
+            continue
+        sc = dict(w=w, h=h, ncores=18, buf=rng.choice((64, 256)), app=30 + rep % 200, wait=1, ntries=1, usecount=0,
+                  style="map", bins=bins, miss=[], label="C12: pairs on the wire")
+        tr9, _, _ = c09.run_scenario(wd, sc)
+        cur = None
+        for e in tr9["ev"]:
+            if e[0] == "start":
+                cur = dict(sel=[], data=[])
+            elif cur is not None and e[0] == "select":
+                cur["sel"].append(list(e[1]) + [int(e[2])])
+            elif cur is not None and e[0] == "data":
+                cur["data"] += list(e[6])
+            elif cur is not None and e[0] == "end":
+                which = [tg for d, tg in bins if list(bytearray(d)) == cur["data"]]
+                if len(which) == 1:
+                    tg = [[x, y, sorted(int(c) for c in cs)] for (x, y), cs in sorted(which[0].items())]
+                    traces.append(dict(ev=[["ff", tg, cur["sel"]]], label="flood_fill_aplx, pairs as received"))
+                    chk.note_case(("wire", tg), nontrivial=True)
+                    wired += 1
+                else:
+                    chk.count("fills whose data is no requested binary (left to C09)")
+                cur = None
+    chk.count("fills of multi-binary loads whose core-select packets were judged", wired)
     evs = []
     for _ in range(chk.pick(300, 10000)):
         x, y, lv = rng.randrange(256), rng.randrange(256), rng.randrange(4)
